@@ -7,6 +7,8 @@ COMMON_ASSUME = [
 ]
 
 TIERS = {
+    "C14": {"quick": {"runs": 400, "budget_s": 70, "run_timeout_s": 300},
+            "thorough": {"runs": 6000, "budget_s": 900, "run_timeout_s": 600}},
     "C16": {"quick": {"runs": 300, "budget_s": 80, "run_timeout_s": 300},
             "thorough": {"runs": 5000, "budget_s": 900, "run_timeout_s": 600}},
     "C19": {"quick": {"runs": 500, "budget_s": 70, "run_timeout_s": 300},
@@ -43,6 +45,19 @@ TM_RULE = ("case = (generated program, argument, seeded history of trace transit
            "or a fault fired")
 
 META = {
+    "C14": {"LEVEL": "exploration",
+            "RULE": "case = (placement: chain of <= 3 wrappers from {jit, scan, while_loop, fori_loop, cond, switch, grad, vmap, "
+                    "vmap with unbatched site, checkpoint, custom_jvp} around a site written as dist.sample / dist(...) / @gen simulate; "
+                    "seeded history of unseeded and seeded probes with fresh function objects, flag flips, cache flushes, logical-clock "
+                    "jumps, failing neighbours); distinct = distinct (placement, site form, history); non-trivial = nesting >= 2 or a fault fired",
+            "COMPONENTS": {"real": ["genjax.pjax (sample_p lowering rule, batch rule, Seed interpreter, module flags, global_counter)",
+                                    "jax.jit / lax control flow / jax.vmap / jax.grad / jax.checkpoint / jax.custom_jvp"],
+                           "stub": ["sim/jaxcompat.py"], "regimes": "REAL"},
+            "ASSUMPTIONS": COMMON_ASSUME + ["a cache hit on an executable compiled while a neighbour had explicitly disabled the exception "
+                                            "is not a compile attempt: probes are rebuilt as fresh function objects"],
+            "REQUIRED_PROBES": {"quick": ["unseeded_probe", "seeded_probe", "unseeded_raised_lowering", "seeded_returned", "seeded_raised"],
+                                "thorough": ["unseeded_probe", "seeded_probe", "unseeded_raised_lowering", "unseeded_raised_notimpl",
+                                             "seeded_returned", "seeded_raised", "w_checkpoint", "w_custom_jvp", "w_while"]}},
     "C16": {"LEVEL": "exploration",
             "RULE": "case = (generated program with nested / vectorised / scanned / Cond-merged leaves, 3-6 generated selection "
                     "expressions of nesting <= 3 over its address alphabet, kernel mala|hmc); distinct = distinct (program shape, "
@@ -164,6 +179,8 @@ META = {
 
 DST = "deterministic simulation with fault injection"
 CLAIMS = {
+    "C14": dict(text="seeded search over placements of a sampling site in JAX control flow/transformations and over histories of flag flips, cache flushes, logical-clock jumps and failing neighbours; unseeded compile attempts must raise, seeded results must follow the key and not the clock",
+                ref="DESIGN.md 4 C14", note="placements bounded to depth 3; fresh function objects per probe", technique=DST + " (logical-clock jumps + cache loss between repeated seeded calls expose hidden randomness)"),
     "C16": dict(text="through the randomness seam: the leaves redrawn by regenerate and moved by mala/hmc (SCRIPTED accept) are exactly the leaves filter selects and the Boolean meaning of generated selection expressions; chained match / filter-merge partition as op-level comparisons",
                 ref="DESIGN.md 4 C16", note="algebra clauses are pure op-level comparisons (stated in the evidence); bounded nesting",
                 technique=DST + " (randomness seam shows which leaves receive fresh randomness; Boolean-algebra reference)"),
